@@ -6,6 +6,7 @@ becomes `PdfVerif.Gen.ProcEncoding.ENCODING : List (Nat x Nat x Nat x Nat x Nat)
 `GLYPHS`, the unicode value of every distinct glyph name in sorted order (the harness refers to
 glyph names of /Differences by their index in that order).
 """
+import ast
 import os
 from . import py2lean as P
 
@@ -51,5 +52,132 @@ def generate(lean_dir: str):
     out.append("def GLYPHS : List Nat := [" + ", ".join(str(uni[n]) for n in sorted(uni)) + "]\n\n")
     out.append("end PdfVerif.Gen.ProcEncoding\n")
     path = os.path.join(lean_dir, "PdfVerif", "Gen", "ProcEncoding.lean")
+    P.write_if_changed(path, "".join(out))
+    return [path] + generate_globals(lean_dir)
+
+
+# ----------------------------------------------------------------------------- process-wide constants
+TEXT_FIELDS = ["fontsize", "charspace", "wordspace", "scaling", "leading", "render", "rise"]
+
+
+def predefined_colorspaces():
+    """the literal list of the module-level loop `for name, n in [...]: PREDEFINED_COLORSPACE[name] = PDFColorSpace(name, n)`"""
+    mod = P.parse_file("pdfminer/pdfcolor.py")
+    loops = [st for st in mod.body if isinstance(st, ast.For)]
+    if len(loops) != 1:
+        raise P.Untranslatable("pdfcolor.py: expected exactly one module-level loop filling PREDEFINED_COLORSPACE")
+    lp = loops[0]
+    ok = (isinstance(lp.target, ast.Tuple) and [getattr(e, "id", None) for e in lp.target.elts] == ["name", "n"]
+          and len(lp.body) == 1 and isinstance(lp.body[0], ast.Assign) and not lp.orelse
+          and ast.unparse(lp.body[0]).replace(" ", "") == "PREDEFINED_COLORSPACE[name]=PDFColorSpace(name,n)")
+    if not ok:
+        raise P.Untranslatable("pdfcolor.py: loop body is not `PREDEFINED_COLORSPACE[name] = PDFColorSpace(name, n)`")
+    # nothing else may assign into the table at module level
+    for st in mod.body:
+        if st is not lp and "PREDEFINED_COLORSPACE[" in ast.unparse(st):
+            raise P.Untranslatable("pdfcolor.py: PREDEFINED_COLORSPACE is modified outside the loop")
+    rows = P.literal(lp.iter)
+    if not (isinstance(rows, list) and rows and all(isinstance(r, tuple) and len(r) == 2 and isinstance(r[0], str)
+            and isinstance(r[1], int) and not isinstance(r[1], bool) and r[1] >= 0 for r in rows)):
+        raise P.Untranslatable("pdfcolor.py: colour space rows")
+    if len({r[0] for r in rows}) != len(rows):
+        raise P.Untranslatable("pdfcolor.py: duplicate colour space name")
+    return rows
+
+
+def strict_flag():
+    v = P.literal(P.find_assign(P.parse_file("pdfminer/settings.py"), "STRICT"))
+    if not isinstance(v, bool):
+        raise P.Untranslatable("settings.STRICT is not a literal bool")
+    return v
+
+
+def textstate_defaults():
+    mod = P.parse_file("pdfminer/pdfinterp.py")
+    cls = [st for st in mod.body if isinstance(st, ast.ClassDef) and st.name == "PDFTextState"]
+    if len(cls) != 1:
+        raise P.Untranslatable("class PDFTextState")
+    init = P.find_function(cls[0], "__init__")
+    vals = {}
+    for st in init.body:
+        tgt, val = None, None
+        if isinstance(st, ast.AnnAssign):
+            tgt, val = st.target, st.value
+        elif isinstance(st, ast.Assign) and len(st.targets) == 1:
+            tgt, val = st.targets[0], st.value
+        if isinstance(tgt, ast.Attribute) and getattr(tgt.value, "id", None) == "self" and tgt.attr in TEXT_FIELDS:
+            v = P.literal(val)
+            if isinstance(v, bool) or not isinstance(v, (int, float)) or v != int(v):
+                raise P.Untranslatable(f"PDFTextState.{tgt.attr} default {v!r}")
+            if tgt.attr in vals:
+                raise P.Untranslatable(f"PDFTextState.{tgt.attr} assigned twice")
+            vals[tgt.attr] = int(v)
+    if sorted(vals) != sorted(TEXT_FIELDS):
+        raise P.Untranslatable("PDFTextState.__init__ does not set " + str(sorted(set(TEXT_FIELDS) - set(vals))))
+    return [vals[f] for f in TEXT_FIELDS]
+
+
+def metrics_digest(entry):
+    """(number of width entries, rounded sum of the widths) of one FONT_METRICS value"""
+    if not (isinstance(entry, tuple) and len(entry) == 2 and isinstance(entry[1], dict)):
+        raise P.Untranslatable("FONT_METRICS entry")
+    return (len(entry[1]), int(round(sum(entry[1].values()))))
+
+
+def font_metrics():
+    """[(key, digest)] in the insertion order of the dict: the literal, then `FONT_METRICS[a] = FONT_METRICS[b]`"""
+    mod = P.parse_file("pdfminer/fontmetrics.py")
+    lit = P.literal(P.find_assign(mod, "FONT_METRICS"))
+    if not isinstance(lit, dict):
+        raise P.Untranslatable("FONT_METRICS is not a literal dict")
+    table = {k: metrics_digest(v) for k, v in lit.items()}
+    seen_literal = False
+    for st in mod.body:
+        src = ast.unparse(st)
+        if "FONT_METRICS" not in src:
+            continue
+        if isinstance(st, ast.Expr) and isinstance(st.value, ast.Constant):
+            continue                  # docstring
+        if isinstance(st, ast.FunctionDef) and st.name == "convert_font_metrics":
+            continue                  # the offline AFM converter prints a table; never called by the library
+        tg = st.targets[0] if isinstance(st, ast.Assign) and len(st.targets) == 1 else getattr(st, "target", None)
+        if isinstance(st, (ast.Assign, ast.AnnAssign)) and getattr(tg, "id", None) == "FONT_METRICS":
+            if seen_literal:
+                raise P.Untranslatable("fontmetrics.py: FONT_METRICS assigned twice")
+            seen_literal = True       # the literal assignment itself
+            continue
+        ok = (isinstance(st, ast.Assign) and len(st.targets) == 1 and isinstance(st.targets[0], ast.Subscript)
+              and getattr(st.targets[0].value, "id", None) == "FONT_METRICS"
+              and isinstance(st.value, ast.Subscript) and getattr(st.value.value, "id", None) == "FONT_METRICS")
+        if not ok:
+            raise P.Untranslatable("fontmetrics.py: statement touching FONT_METRICS: " + src[:80])
+        a, b = P.literal(st.targets[0].slice), P.literal(st.value.slice)
+        if not (isinstance(a, str) and isinstance(b, str) and b in table):
+            raise P.Untranslatable("fontmetrics.py: alias " + src[:80])
+        table[a] = table[b]
+    return list(table.items())
+
+
+def generate_globals(lean_dir: str):
+    cs = predefined_colorspaces()
+    fm = font_metrics()
+    td = textstate_defaults()
+    out = [P.HEADER.format(src="pdfminer/pdfcolor.py, fontmetrics.py, settings.py, pdfinterp.py (PDFTextState)", ns="ProcGlobals")]
+    out.append("/-- number of components of the predefined colour spaces, in the insertion order of\n"
+               "`PREDEFINED_COLORSPACE`: " + ", ".join(n for n, _ in cs) + " -/\n")
+    out.append("def PREDEFINED_COLORSPACE : List Nat := [" + ", ".join(str(n) for _, n in cs) + "]\n\n")
+    out.append("/-- (number of width entries, rounded sum of the widths) of the entries of `FONT_METRICS`, in\n"
+               "insertion order (aliases included) -/\n")
+    out.append("def FONT_METRICS : List (Nat × Nat) := [" + ", ".join("(%d, %d)" % d for _, d in fm) + "]\n\n")
+    names = [n for n, _ in cs]
+    for dev in ("DeviceGray", "DeviceRGB", "DeviceCMYK"):
+        if dev not in names:
+            raise P.Untranslatable("pdfcolor.py: PREDEFINED_COLORSPACE has no " + dev + " (do_g / do_rg / do_k index it)")
+        out.append("/-- position of `%s` in `PREDEFINED_COLORSPACE` -/\ndef IDX_%s : Nat := %d\n\n" % (dev, dev.upper(), names.index(dev)))
+    out.append("def STRICT : Bool := " + ("true" if strict_flag() else "false") + "\n\n")
+    out.append("/-- defaults of `PDFTextState()`: " + ", ".join(TEXT_FIELDS) + " -/\n")
+    out.append("def TEXTSTATE_DEFAULTS : Int × Int × Int × Int × Int × Int × Int := (" + ", ".join(str(v) for v in td) + ")\n\n")
+    out.append("end PdfVerif.Gen.ProcGlobals\n")
+    path = os.path.join(lean_dir, "PdfVerif", "Gen", "ProcGlobals.lean")
     P.write_if_changed(path, "".join(out))
     return [path]
